@@ -4,7 +4,11 @@ package collect
 
 import (
 	"fmt"
+	"strings"
 	"testing"
+	"time"
+
+	"github.com/honeycombio/refinery/config"
 
 	"github.com/honeycombio/refinery/internal/verifkit"
 )
@@ -34,6 +38,10 @@ func c01Check(run *verifkit.Run, h *E1History, e *E1, f *E1Final) (exempt, evalu
 	}
 	// candidates for the false-positive exemption: kept traces the filter calls dropped
 	fpBudget := f.DropFilterExcess()
+	if f.PhantomDecisions() != 0 {
+		// decisions were recorded without being applied: surplus "dropped" answers are not false positives
+		fpBudget = 0
+	}
 	for _, id := range f.Order {
 		t := f.Traces[id]
 		if len(t.Accepted) == 0 {
@@ -105,13 +113,39 @@ func TestVerif_C01(t *testing.T) {
 	run.Assume("accepted span = AddSpan/AddSpanFromPeer returned nil; forwarded = snapshot taken at Transmission.EnqueueSpan")
 	run.Assume("kept-record retention is measured conservatively: a trace is exempt when ≥ KeptSizePerWorker other traces of its worker used the kept LRU after its decision")
 
-	n := run.N(240, 3000)
+	n := run.N(200, 2600)
 	steps := run.N(60, 150)
 	var exempt, evaluated int
-	run.Cases("lifecycle", n, func(i int, rng *verifkit.Rand) {
-		p := E1Profile{MaxSteps: steps, SmallKept: rng.Chance(0.06), TinyQueues: rng.Chance(0.1)}
-		h := e1GenHistory(rng, p)
-		e := h.Run(t, nil, nil)
+	one := func(label string, i int, h *E1History) {
+		var e *E1
+		hookBroken := false
+		// Mechanism check at every quiescent point: a trace that is still buffered and undecided must have no
+		// record in its worker's decision cache (a record for it means later spans will be treated by a decision the
+		// trace itself never got). CheckTrace does not change LRU recency for ids it does not find.
+		hook := func(v *E1View) {
+			if hookBroken {
+				return
+			}
+			for _, b := range v.Buffered() {
+				if b.Sent {
+					continue
+				}
+				d := v.CheckTrace(b.Trace)
+				if !d.Found {
+					continue
+				}
+				if made, applied := e.DecisionCounts(); !d.Kept && made == applied {
+					// every decision made was applied, so nothing recorded this id: a false positive of the dropped filter
+					run.Count("exempt_dropped_filter_false_positive_while_buffered", 1)
+					continue
+				}
+				hookBroken = true
+				run.Violation("C01/undecided-buffered-trace-has-recorded-decision",
+					fmt.Sprintf("trace is buffered and undecided at step %d, yet the decision cache already answers kept=%v for it", e.Step(), d.Kept),
+					map[string]any{"config": h.Cfg.describe(), "buffered": b, "check_trace": d, "ops": e.Ops()})
+			}
+		}
+		e = h.Run(t, func(d *E1) { e = d; d.OnQuiesce(hook) }, nil)
 		defer e.Stop()
 		if e.Failed() != "" {
 			run.Inconclusive(e.Failed())
@@ -127,7 +161,7 @@ func TestVerif_C01(t *testing.T) {
 		evaluated += ev
 		sig, late, kept, dropped := h.Abstract(f)
 		if late > 0 && kept > 0 && dropped > 0 {
-			run.Nontrivial(sig)
+			run.Nontrivial(label + " " + sig)
 		}
 		run.Count("traces_evaluated", int64(ev))
 		run.Count("spans_accepted", int64(c01Accepted(f)))
@@ -135,8 +169,15 @@ func TestVerif_C01(t *testing.T) {
 		run.Count("late_spans", int64(late))
 		run.Count("steps", int64(e.Step()))
 		if i < 2 {
-			run.Sample(map[string]any{"config": h.Cfg.describe(), "ops": len(e.Ops()), "traces": len(f.Order), "kept": kept, "dropped": dropped, "late": late})
+			run.Sample(map[string]any{"label": label, "config": h.Cfg.describe(), "ops": len(e.Ops()), "traces": len(f.Order), "kept": kept, "dropped": dropped, "late": late})
 		}
+	}
+	run.Cases("lifecycle", n, func(i int, rng *verifkit.Rand) {
+		one("lifecycle", i, e1GenHistory(rng, E1Profile{MaxSteps: steps, SmallKept: rng.Chance(0.06), TinyQueues: rng.Chance(0.1)}))
+	})
+	// partial ejections followed by the spans that change a content-dependent sampler's mind
+	run.Cases("eject-then-complete", run.N(50, 600), func(i int, rng *verifkit.Rand) {
+		one("eject", i, c01GenEjectHistory(rng))
 	})
 	if evaluated > 0 && exempt*100 > evaluated*2 {
 		run.Inconclusive(fmt.Sprintf("%d of %d traces exempted (>2%%)", exempt, evaluated))
@@ -149,4 +190,81 @@ func c01Accepted(f *E1Final) int {
 		n += len(t.Accepted)
 	}
 	return n
+}
+
+// c01GenEjectHistory: several traces of few workers are buffered WITHOUT the span that would make a
+// content-dependent sampler keep them (rules: keep iff some span has error=yes / keep iff a root is present / keep
+// iff an odd-numbered span is present). A partial ejection (byte budget 0, 1 or the size of the heaviest trace)
+// decides the heaviest trace(s) and leaves the rest buffered. Then the survivors receive the deciding span (error
+// span, root), more children, are decided by SendDelay/TraceTimeout, and receive late spans. A decision taken —
+// or recorded — for a survivor during the ejection round would differ from its real one.
+func c01GenEjectHistory(rng *verifkit.Rand) *E1History {
+	workers := verifkit.Pick(rng, 1, 1, 2, 3)
+	tick := 100 * time.Millisecond
+	errSampler := E1SamplerDef{Kind: "rules-error-field", Choice: &config.V2SamplerChoice{RulesBasedSampler: &config.RulesBasedSamplerConfig{Rules: []*config.RulesBasedSamplerRule{
+		{Name: "has-error", SampleRate: 1, Conditions: []*config.RulesBasedSamplerCondition{e1Cond("error", "=", "yes")}},
+		{Name: "no-error", Drop: true},
+	}}}, Predict: func(string, bool) (bool, bool) { return false, false }}
+	hasRoot := E1SamplerDef{Kind: "rules-has-root", Choice: &config.V2SamplerChoice{RulesBasedSampler: &config.RulesBasedSamplerConfig{Rules: []*config.RulesBasedSamplerRule{
+		{Name: "rooted", SampleRate: 1, Conditions: []*config.RulesBasedSamplerCondition{{Operator: config.HasRootSpan, Value: true}}},
+		{Name: "rootless", Drop: true},
+	}}}, Predict: func(string, bool) (bool, bool) { return false, false }}
+	h := &E1History{Defs: map[string]E1SamplerDef{"env-a": errSampler, "env-b": verifkit.Pick(rng, hasRoot, errSampler)}, MinKept: 10000}
+	h.Cfg = E1Config{Workers: workers, AddRuleReason: rng.Bool(),
+		Traces: config.TracesConfig{SendTicker: config.Duration(tick), SendDelay: config.Duration(300 * time.Millisecond),
+			TraceTimeout: config.Duration(verifkit.Pick(rng, 2000, 3000) * int(time.Millisecond)), MaxExpiredTraces: uint(verifkit.Pick(rng, 0, 2, 3000))},
+		Samplers: map[string]*config.V2SamplerChoice{"env-a": h.Defs["env-a"].Choice, "env-b": h.Defs["env-b"].Choice}}
+	type tr struct {
+		id, env string
+		n       int
+	}
+	var trs []*tr
+	nextID := 0
+	mk := func(x *tr, kind string, errField bool, pad int) E1Span {
+		nextID++
+		x.n++
+		f := map[string]any{"svc": "api", "pad": strings.Repeat("x", pad), "n": int64(x.n)}
+		if errField {
+			f["error"] = "yes"
+		}
+		return E1Span{ID: fmt.Sprintf("s%d", nextID), Trace: x.id, Kind: kind, Peer: rng.Chance(0.3), Env: x.env, Dataset: "ds-" + x.env, Rate: uint(verifkit.Pick(rng, 0, 1, 2)), Fields: f}
+	}
+	span := func(s E1Span) { h.Steps = append(h.Steps, e1Step{Op: "span", Spans: []E1Span{s}}) }
+	for j := rng.Range(4, 10); j > 0; j-- {
+		trs = append(trs, &tr{id: rng.Hex(32), env: verifkit.Pick(rng, "env-a", "env-a", "env-b")})
+	}
+	// phase A: children only, distinct weights (so that "the heaviest" is well defined)
+	for k, x := range trs {
+		for c := rng.Range(1, 3); c > 0; c-- {
+			span(mk(x, "child", false, 10+40*k+rng.Intn(30)))
+		}
+	}
+	rounds := rng.Range(1, 3)
+	for r := 0; r < rounds; r++ {
+		// phase B: partial ejection
+		h.Steps = append(h.Steps, e1Step{Op: "eject", Worker: rng.Intn(workers+1) - 1, Bytes: verifkit.Pick(rng, 0, 0, 1, 1, 60, 400)})
+		// phase C: the deciding spans for (some of) the traces — survivors get them while still buffered, ejected ones as late spans
+		for _, x := range trs {
+			switch rng.Intn(5) {
+			case 0:
+				span(mk(x, "child", true, 5))
+			case 1:
+				span(mk(x, "root", false, 5))
+			case 2:
+				span(mk(x, "child", true, 5))
+				span(mk(x, "root", false, 5))
+			case 3:
+				span(mk(x, "child", false, 20))
+			}
+		}
+		h.Steps = append(h.Steps, e1Step{Op: "advance", Dur: verifkit.Pick(rng, tick, 300*time.Millisecond+tick, time.Second)})
+	}
+	// phase D: everything that is left times out; late spans for every trace, then more time
+	h.Steps = append(h.Steps, e1Step{Op: "advance", Dur: 3*time.Second + tick})
+	for _, x := range trs {
+		for c := rng.Range(1, 2); c > 0; c-- {
+			span(mk(x, verifkit.Pick(rng, "child", "child", "root"), rng.Chance(0.3), 5))
+		}
+	}
+	return h
 }
